@@ -40,7 +40,7 @@ PROPS = {
         kani_thorough=['lexing.whitespace_5', 'lexing.whitespace_8', 'lexing.hostname_4', 'lexing.url_4'],
         rac=['lexers', 'lexer_literals', 'url_scanner', 'document_tiles', 'remove_indices', 'condense_indices', 'markdown_tokens'],
         unverified=[
-            'tiling preservation is PROVED for condense_spaces, condense_dotted_initialisms, condense_number_suffixes (the latter modulo the condense_indices contract: peekable() body, bounded-rac) and, since fix D11, condense_newlines; match_quotes and newlines_to_breaks are PROVED (spans untouched, twins mutual); condense_contractions/ellipsis/latin (condense_pattern over thread_local patterns with an Fn(&mut Token) callback) and Document::parse as a whole are covered by the bounded stand-in rac:document_tiles only',
+            'tiling preservation is PROVED for condense_spaces, condense_dotted_initialisms, condense_number_suffixes, condense_indices (peekable() loop: desugaring R17) and, since fix D11, condense_newlines; match_quotes and newlines_to_breaks are PROVED (spans untouched, twins mutual); condense_contractions/ellipsis/latin (condense_pattern over thread_local patterns with an Fn(&mut Token) callback) and Document::parse as a whole are covered by the bounded stand-in rac:document_tiles only',
             'every front-end other than plain English (Markdown byte/char bookkeeping, Mask::parse, CollapseIdentifiers, IsolateEnglish, comment parsers, HTML, Typst, LHS, git commit)',
             'lexical shape of Word tokens (no whitespace inside) and the numeric value of Number tokens (lex_number: str::parse::<f64>)',
             'which Punctuation variant a punctuation token carries (Punctuation::from_char is verified panic-free only)',
